@@ -157,6 +157,19 @@ for f, fns in DEEP.items():
         GROUPS.append(G("deep.%s.n%d.m%d.search" % (f, n, m), "harness/C07/deep_zz.c", "h_deep", ZZALL,
                         defs=["N=%d" % n, "M=%d" % m, "F_" + f], level="N", backend="native", search=60000, fn=fns,
                         note="native ASan/UBSan run on a scratch stack of exactly f_deep() octets, seeded search over operand values; NOT proof"))
+PPALL = ["src/math/pp/pp_etc.c", "src/math/pp/pp_mod.c", "src/math/pp/pp_mul.c", "src/math/pp/pp_red.c", "src/math/pp/pp_gcd.c",
+         "src/math/ww.c", "src/core/mem.c", "src/core/util.c", "src/core/word.c", "src/core/u64.c", "src/core/u32.c", "src/core/u16.c"]
+DEEP_PP = {"ppIsIrred": ["ppIsIrred", "ppIsIrred_deep"], "ppMinPoly": ["ppMinPoly", "ppMinPoly_deep"],
+           "ppMinPolyMod": ["ppMinPolyMod", "ppMinPolyMod_deep"]}
+for f, fns in DEEP_PP.items():
+    for n in (1, 2, 3, 5):
+        GROUPS.append(G("deep.%s.n%d.search" % (f, n), "harness/C07/deep_pp.c", "h_deep", PPALL,
+                        defs=["N=%d" % n, "F_" + f], level="N", backend="native", search=3000 if f == "ppMinPolyMod" else 20000, fn=fns,
+                        note="native ASan/UBSan run on a scratch stack of exactly f_deep() octets, seeded search over operand values; NOT proof"))
+for l in (1, 7, 63, 65, 100):
+    GROUPS.append(G("deep.ppMinPoly.l%d.search" % l, "harness/C07/deep_pp.c", "h_deep", PPALL,
+                    defs=["L=%d" % l, "F_ppMinPoly"], level="N", backend="native", search=20000, fn=DEEP_PP["ppMinPoly"],
+                    note="native ASan/UBSan run on a scratch stack of exactly ppMinPoly_deep(l) octets; NOT proof"))
 # measured: the same harness under CBMC with the real zzDiv/zzMod bodies gives no answer in 900 s even for n = 1
 # (Knuth division); so the CBMC side of regime (b) is modular: heavy callees replaced by the memory side of their contracts.
 CALC = {"zzSqrt": (["zzSqrt", "zzSqrt_deep"], [("zzDiv", "c_zzDiv")]),
